@@ -51,6 +51,7 @@ def main(ctx, replay=None):
     replay_behaviours(ctx, oracle, cases, rng, ("gap", "adi"), check_cache=False)
     shear_identity(ctx, rng)
     scheduler_identity(ctx, rng, cases)
+    end_to_end(ctx, rng)
 
 
 def shear_identity(ctx, rng):
@@ -132,3 +133,48 @@ def _pid(inst, strain, task):
     if getattr(_pid, "_k", None) != key:
         _pid._k, _pid._p = key, Projector(inst, strain)
     return _pid._p.params(task.task_params)
+
+
+def end_to_end(ctx, rng):
+    """Calculator.modulus_adiabatic - modulus_isothermal on a real run: the gap formula with the heat capacity and the pressure the QHA
+    layer itself holds (qha's own C_V(T,V), not a copy that passed through cij); zero for every component with an index 4-6."""
+    from cij.util import c_
+    from cv import fillspec, sched
+    from cv.e2e import Workdir, free_dataset, full_modulus_of, oracle_case
+    from cv.phonon_expect import PhononExpectation, scenario_of
+    from cv.synth import run
+    wd = Workdir()
+    try:
+        ds = free_dataset(rng, extra_shear=3, lattice=True, nq=2, nat=2, settings={"NT": 5, "DT": 300, "NTV": 8})
+        d = wd.sub("gap")
+        try:
+            ds.fit_pressure_window(d)
+            calc = run(ds.write(d))
+        except Exception:
+            return                                       # completion is C12's business
+        ctx.count({"end_to_end": True, "keys": ["%d%d" % k for k in ds.keys]})
+        strains = numpy.asarray(full_modulus_of(calc).get_axial_strains(), dtype=float)
+        case = oracle_case(ds, calc)
+        oracle = ThermoOracle(ctx, [(ds.nq, ds.nat)])
+        scen = scenario_of(strains)
+        pe = PhononExpectation(oracle, sched.load_instances(ctx, scenarios=(scen,))[scen], case, strains)
+        for k in ds.keys:
+            gap = numpy.asarray(calc.modulus_adiabatic[c_(*k)]) - numpy.asarray(calc.modulus_isothermal[c_(*k)])
+            if k[0] >= 4 or k[1] >= 4:
+                if not numpy.all(gap == 0):
+                    ctx.violation(f"Calculator: c{k[0]}{k[1]} adiabatic differs from isothermal by {float(numpy.nanmax(numpy.abs(gap))):.3g}",
+                                  {"key": list(k)}, {"clause": "shear_adi_eq_iso_calculator"})
+                continue
+            iso_p, adi_p, scale_i, scale_a = pe.key(k)
+            want = adi_p - iso_p
+            ok = numpy.isfinite(want)
+            with numpy.errstate(all="ignore"):
+                err = numpy.abs(gap - want) / numpy.maximum(numpy.abs(want), 1e-12 * scale_a)
+            if not numpy.all(err[ok] <= 2e-6):
+                i = tuple(int(x) for x in numpy.argwhere(ok & ~(err <= 2e-6))[0])
+                ctx.violation(f"Calculator: c{k[0]}{k[1]} adiabatic - isothermal at T={case['t'][i[0]]:g}, V#{i[1]} is {gap[i]!r}; "
+                              f"T V (dP/dT)^2 / (9 e_i e_j C_V) with the QHA layer's C_V gives {want[i]!r}", {"key": list(k), "index": i},
+                              {"clause": "gap_calculator"})
+                return
+    finally:
+        wd.close()
